@@ -804,6 +804,28 @@ def case_C16(seed):
                     break
             if viol:
                 break
+            # lines_parallel (the criterion by which connect_parallelroads links roads: directions within one degree, segments within
+            # d) commutes with the same maps.  Grid pairs (axis-aligned lines occur by construction) and a nearly parallel pair
+            # whose direction is steep in one of the two coordinates
+            ang = math.radians(r3.choice([0.0, 0.1, 0.3, 0.5, 0.8, 1.3, 2.0]))
+            dv = r3.choice([(10.0, r3.choice([0.0, 0.25, 1.0])), (r3.choice([0.0, 0.25, 1.0]), 10.0), (5.0, 5.0)])
+            h1 = (0.5, 0.25)
+            h2 = (h1[0] + dv[0] * math.cos(ang) - dv[1] * math.sin(ang), h1[1] + dv[0] * math.sin(ang) + dv[1] * math.cos(ang))
+            fold = lambda a_, b_: math.atan2(abs(b_[1] - a_[1]), abs(b_[0] - a_[0]))
+            for (a_, b_, c_, d_) in ((f1, f2, t1, t2), ((0.0, 0.0), dv, h1, h2)):
+                if a_ == b_ or c_ == d_ or abs(abs(fold(a_, b_) - fold(c_, d_)) - math.pi / 180) < 1e-6:
+                    continue        # zero-length line, or exactly on the one-degree threshold
+                for dist in (None, 100.0):
+                    b0 = de.lines_parallel(a_, b_, c_, d_, d=dist)
+                    for nm, T in maps:
+                        k_ = 8.0 if nm.startswith('scale') else 1.0
+                        b1 = de.lines_parallel(T(a_), T(b_), T(c_), T(d_), d=None if dist is None else dist * k_)
+                        if b0 != b1 and not viol:
+                            viol.append((f'C16:lines_parallel-does-not-commute-with-{nm.split(" ")[0]}',
+                                         f"lines_parallel{(a_, b_, c_, d_)}, d={dist}: {b0}; after {nm}: {b1}",
+                                         {'inputs': [a_, b_, c_, d_], 'd': dist, 'map': nm, 'before': b0, 'after': b1}))
+            if viol:
+                break
     if not viol and exact and case['cfg'].get('max_lattice_width') is None:
         # a fine-grained map far from the origin: the same map scaled by 2^-11 (a grid unit of 0.5 becomes 2.4e-4), once near
         # the origin and once translated by (2^22, -2^23); every coordinate stays exact, positions carry about 1e-9 absolute
